@@ -74,10 +74,10 @@ def scrub(result):
     elif isinstance(result, Call):
         kwargs = scrub(result.kwargs)
         args = scrub(result.args)
-        op = result.op
+        op = fmap.get(result.op, result.op)
         if args is SQL_NULL:
             null_locations.append((kwargs, op))
-        return scrub_op(fmap.get(op, op), args, kwargs)
+        return scrub_op(op, args, kwargs)
     elif isinstance(result, dict) and not result:
         return result
     elif isinstance(result, list):
